@@ -391,6 +391,18 @@ fn gen_case(r: &mut Rng) -> Vec<String> {
         ops.push(format!("doc {a} {b} {} {} {txt2}", if tags.is_empty() { "-".into() } else { join(tags, ",") }, words.join("_")));
     }
     let nrm = r.usize(n / 3 + 1);
+    // array updates: the collection a filter sees is the result of a HISTORY; an update replaces the array
+    // value of `tags` - first by one with repeats over a small alphabet, then by one that shares a leading run
+    // with it (set difference of old and new must be taken over the whole arrays)
+    for _ in 0..r.usize(3) {
+        let id = 1 + r.usize(n);
+        let t1: Vec<u64> = (0..2 + r.usize(3)).map(|_| r.below(3)).collect();
+        let keep = 1 + r.usize(t1.len());
+        let mut t2: Vec<u64> = t1[..keep].to_vec();
+        for _ in 0..r.usize(3) { t2.push(r.below(7)); }
+        ops.push(format!("upd {id} {}", join(t1, ",")));
+        ops.push(format!("upd {id} {}", join(t2, ",")));
+    }
     for _ in 0..nrm {
         ops.push(format!("rm {}", 1 + r.usize(n)));
     }
@@ -507,6 +519,16 @@ async fn run_case(ops: &[String]) -> Result<(RefState, Outcome), String> {
                 };
                 let id = c.add_from(&d).await.map_err(|e| format!("add: {e}"))?;
                 st.docs.insert(id, Doc { _id: id, ..d });
+            }
+            ["upd", id, tags] => {
+                let id: u64 = id.parse().map_err(|_| "bad upd")?;
+                let tags: Vec<u64> = if *tags == "-" { vec![] } else { tags.split(',').map(|t| t.parse().unwrap_or(0)).collect() };
+                if let Some(d) = st.docs.get_mut(&id) {
+                    let mut f = BTreeMap::new();
+                    f.insert("tags".to_string(), Fv::Array(tags.iter().map(|t| Fv::U64(*t)).collect()));
+                    c.update(id, f).await.map_err(|e| format!("update: {e}"))?;
+                    d.tags = tags;
+                }
             }
             ["rm", id] => {
                 let id: u64 = id.parse().map_err(|_| "bad rm")?;
@@ -686,7 +708,7 @@ fn check_case(rt: &tokio::runtime::Runtime, ops: &[String], model: &mut Option<M
     let (mut nf, mut nd) = (0, 0);
     // state-changing ops precede queries in generated cases, but a replay/corpus file may interleave:
     // the model is given the *final* state only when all queries come last.
-    let last_state_op = ops.iter().rposition(|o| o.starts_with("doc") || o.starts_with("rm")).unwrap_or(0);
+    let last_state_op = ops.iter().rposition(|o| o.starts_with("doc") || o.starts_with("rm") || o.starts_with("upd")).unwrap_or(0);
     let first_query = ops.iter().position(|o| o.starts_with("q ") || o.starts_with("s ") || o.starts_with("S ") || o.starts_with("M ")).unwrap_or(ops.len());
     let model_ok = last_state_op < first_query;
     if let Some(m) = model.as_mut() && model_ok {
@@ -714,7 +736,7 @@ fn check_case(rt: &tokio::runtime::Runtime, ops: &[String], model: &mut Option<M
                     _ if toks[0] == "S" => "S:nofilter".into(),
                     _ => "unparsed".into(),
                 };
-                let mut ctx: Vec<String> = ops.iter().filter(|o| o.starts_with("doc") || o.starts_with("rm")).cloned().collect();
+                let mut ctx: Vec<String> = ops.iter().filter(|o| o.starts_with("doc") || o.starts_with("rm") || o.starts_with("upd")).cloned().collect();
                 ctx.push(op.clone());
                 rep.oracle_failure(&key, "result differs from the set-algebra reading (ascending full result, then first/last `limit`)", &ctx, exp, got);
             }
